@@ -40,7 +40,7 @@ def cases(draw, max_steps=25):
         # reliably in unowned trees of depth <= 2 only (deeper trees are tensors in every caller)
         hows += ["unowned", "unowned", "unowned"]
     how = draw(st.sampled_from(hows))
-    ops = draw(st.lists(machine.op(kinds=machine.MUTATORS + ["insert"], default=spec["default"]), min_size=1,
+    ops = draw(st.lists(machine.op(kinds=machine.MUTATORS + ["insert", "elem_assign", "populate"], default=spec["default"]), min_size=1,
                         max_size=max_steps))
     return {"spec": spec, "how": how, "ops": ops}
 
